@@ -68,6 +68,11 @@ def run(ctx):
     cc.proof_part(ctx)
     n_gr, n_str = ctx.budget((500, 10), (6000, 30))
     info, dis = ec.run(ctx, P, "ends", n_gr, n_str, seed=ctx.seed, gen_kwargs=GEN)
+    # grammars compiled from ABNF text, flag set through Rule.first_match_alternation on the compiled rule
+    # (nested groups must keep longest-match behaviour)
+    info_t, dis_t = ec.run(ctx, P, "ends", n_gr // 2, n_str, seed=ctx.seed + 5,
+                           gen_kwargs={"flags": 0.0, "excl": 0.5, "prose": 0.02, "top_flags_only": True}, text_route=True)
+    dis += dis_t
     n2, dis2, flagbad = toggle_histories(ctx, P, ctx.budget(150, 2000))
     dis += dis2
     ctx.corr_samples = dis[:5]
@@ -91,7 +96,7 @@ def run(ctx):
                    {"kind": "flag", "grammar": gr, "rule": k, "value": val}, key="flag:" + lib.digest([gr, k, val]))
     st = info["stats"]
     ctx.coverage.update({
-        "evaluations": st["cases"] + n2,
+        "evaluations": st["cases"] + n2 + info_t["stats"]["cases"], "text_route_cases": info_t["stats"]["cases"],
         "distinct_nontrivial": st["distinct_nontrivial"],
         "rule": "generated grammars with first-match flags on half of all alternations (nested ones too) and an exclusion pair in 70% of the grammars x strings x every "
                 "offset, plus toggle sequences through Rule.first_match_alternation with probes after every toggle; non-trivial as in C01",
